@@ -4,7 +4,7 @@
 # the demo FAILS with it and PASSES without it. Prints a one-line verdict.
 set -u
 DIFF=$(readlink -f "$1"); DEMO=$(readlink -f "$2"); PKG=$3; TEST=$4
-WT=/tmp/wt-confirm
+WT=${CWT:-/tmp/wt-confirm}
 export GOFLAGS=-mod=mod GOPROXY=off; unset GOSUMDB GOTOOLCHAIN
 if [ ! -d $WT ]; then git -C /repo worktree add -q --detach $WT HEAD; fi
 git -C $WT checkout -q --detach $(git -C /repo rev-parse HEAD); git -C $WT checkout -q -- .; git -C $WT clean -fdq
